@@ -1,8 +1,8 @@
 SPECIFICATION Spec
 CONSTANTS
-  Tables <- MCTables
+  Tables <- MCTables7
   Bytes <- MCBytes
-  MaxBytes = 6
+  MaxBytes = 7
   MaxLines = 1
   Codes <- MCCodes
   VarRets = {0}
